@@ -248,6 +248,12 @@ func checkC18(c *Ctx) (string, []string) {
 			c.Bad("C18.padded-leaves", mtPkg+"."+name, f.Pos(), "no call of the constant-depth leaf function C")
 			continue
 		}
+		vName := "p0"
+		for i, p := range f.Params {
+			if strings.HasPrefix(typeStr(p.Type()), "[]") && strings.Contains(typeStr(p.Type()), "ByteSequence") {
+				vName = fmt.Sprintf("p%d", i)
+			}
+		}
 		bad := ""
 		for _, sz := range [][2]int64{{3, 4}, {5, 8}, {6, 8}, {9, 16}} {
 			stores := map[int64]bool{}
@@ -256,9 +262,9 @@ func checkC18(c *Ctx) (string, []string) {
 			_ = env0
 			_, ok := runWithAtomsEnv(f, shapeOpts, func(s string) (int64, bool) {
 				switch {
-				case s == "len(p0)":
+				case s == "len("+vName+")":
 					return sz[0], true
-				case strings.HasPrefix(s, "len(") && strings.Contains(s, ".C(p0"):
+				case strings.HasPrefix(s, "len(") && strings.Contains(s, ".C("+vName):
 					return sz[1], true
 				}
 				return 0, false
